@@ -90,7 +90,7 @@ package nfpm
 //@     return b
 //@ }
 //
-//@ func (c *Config) expandEnvVars()
+//@ inline func (c *Config) expandEnvVars()
 //@   requires c != nil
 //@   ensures [C16] documented-scalar-fields-are-expanded: c.Release == os.Expand(old(c.Release), c.envMappingFunc) && c.Version == os.Expand(old(c.Version), c.envMappingFunc) && c.Prerelease == os.Expand(old(c.Prerelease), c.envMappingFunc) && c.Platform == os.Expand(old(c.Platform), c.envMappingFunc) && c.Arch == os.Expand(old(c.Arch), c.envMappingFunc) && c.Name == os.Expand(old(c.Name), c.envMappingFunc) && c.Homepage == os.Expand(old(c.Homepage), c.envMappingFunc) && c.Maintainer == os.Expand(old(c.Maintainer), c.envMappingFunc) && c.Vendor == os.Expand(old(c.Vendor), c.envMappingFunc) && c.Description == os.Expand(old(c.Description), c.envMappingFunc)
 //@   ensures [C16] key-files-are-expanded: c.Deb.Signature.KeyFile == os.Expand(old(c.Deb.Signature.KeyFile), c.envMappingFunc) && c.RPM.Signature.KeyFile == os.Expand(old(c.RPM.Signature.KeyFile), c.envMappingFunc) && c.APK.Signature.KeyFile == os.Expand(old(c.APK.Signature.KeyFile), c.envMappingFunc)
@@ -113,3 +113,8 @@ package nfpm
 //@ trusted func (c *Config) expandEnvVarsContents(contents files.Contents) (result files.Contents)
 //@   ensures [C16] same-list: len(result) == len(contents)
 //@   modifies [C11 C12] elems(contents)
+//
+//@ import "io"
+//
+//@ func ParseWithEnvMapping(in io.Reader, mapping func(string) string) (config Config, err error)
+//@   ensures [C16 C17] unknown-keys-are-rejected: implies(err == nil, ghostFlag("yamlDecodedStrictly"))
